@@ -41,9 +41,9 @@ type ceremonyTrace struct {
 	Keys     []*keystore.KeyPair
 	Steps    []traceStep
 	Board    []storage.Message
-	RoundA   string // first round of a "tworounds" trace
+	RoundA   string     // first round of a "tworounds" trace
 	Ops      []opRecord // node 0's operations with their genuine results
-	FinalDir string // node 0's state directory at the end
+	FinalDir string     // node 0's state directory at the end
 	Elapsed  time.Duration
 }
 
@@ -179,6 +179,13 @@ func getTrace(t *testing.T, kind string, n, thr int) (*ceremonyTrace, error) {
 					errored = true
 					done++
 					continue
+				}
+				if i == 0 && strings.Contains(string(op.Type), "sig_proposal_await") {
+					dir := filepath.Join(base, fmt.Sprintf("op-%03d", len(tr.Ops)))
+					if err := copyDir(w.Nodes[0].Dir, dir); err != nil {
+						return done, err
+					}
+					tr.Ops = append(tr.Ops, opRecord{SnapDir: dir, Type: string(op.Type), OpID: op.ID, BoardLen: w.Board.Len()})
 				}
 				if i == 0 && !strings.Contains(string(op.Type), "sig_proposal_await") {
 					// record: snapshot while pending, operation file, genuine result file; then submit as usual
